@@ -55,6 +55,41 @@ def contains_call(e, suffixes):
 LOWER = ("::to_lowercase", "::to_ascii_lowercase", "::make_ascii_lowercase")
 
 
+def low_byte_terms(e, u8_atoms):
+    """(atoms, bounded): the leaf values XOR-ed together in `e` seen modulo 256, and whether the value of `e` itself is
+    below 256 - truncation to u8 (`as u8`, `& 0xFF`) distributes over XOR, so `(c ^ b) & 0xFF`, `((c ^ b) as u8)` and
+    `(c as u8) ^ b` (b a byte) are the same index.  Casts are read from the expression as written (not normalised away)."""
+    if not isinstance(e, tuple):
+        return set(), False
+    if e[0] in ("ref",):
+        return low_byte_terms(e[1], u8_atoms)
+    if e[0] == "cast":
+        at, bd = low_byte_terms(e[2], u8_atoms)
+        return at, bd or e[1] in ("u8",)
+    if e[0] == "call" and e[1].split("::")[-1] in ("from", "into") and len(e[2]) == 1:
+        return low_byte_terms(e[2][0], u8_atoms)
+    if e[0] == "bin" and e[1] == "BitAnd":
+        for x, y in ((e[2], e[3]), (e[3], e[2])):
+            if is_const(x) and x[1] == 0xFF:
+                at, _bd = low_byte_terms(y, u8_atoms)
+                return at, True
+        return set(), False
+    if e[0] == "bin" and e[1] == "BitXor":
+        a0, b0 = low_byte_terms(e[2], u8_atoms), low_byte_terms(e[3], u8_atoms)
+        return a0[0] ^ b0[0] if not (a0[0] & b0[0]) else set(), a0[1] and b0[1]
+    if is_const(e):
+        return set(), False
+    return {e}, e in u8_atoms
+
+
+def table_index_raw(e):
+    """The index expression of the `.table[..]` element access inside a raw (un-normalised) expression."""
+    for t in walk(e):
+        if isinstance(t, tuple) and t[0] == "idx" and any(isinstance(u, tuple) and u[0] == "fld" and u[2] == "table" for u in walk(t[1])):
+            return t[2]
+    return None
+
+
 def run(ctx):
     prog = ctx.prog
     ctx.decided("CRC lookup table = reflected CRC-32 table (256 words per Jamcrc constant)")
@@ -108,6 +143,7 @@ def run(ctx):
                     crets = [q for q in Explorer(cb).explore() if q.end == "return"]
                     if len(crets) == 1:
                         folded = (k0, core0[2][1], N(crets[0].env.local(0)), clo)
+                        folded_raw = (crets[0].env.local(0), cb)
         if folded is not None:
             k0, init_e, upd, clo = folded
             ctx.ob("JAMCRC", "final-xor", k0 == 0, f"checksum returns fold(..) ^ {k0:#x}; JAMCRC has no final inversion (net constant 0)", b.file, b.line, sample=True)
@@ -128,6 +164,16 @@ def run(ctx):
                         if isinstance(inner, tuple) and inner[0] == "bin" and inner[1] == "BitXor" and C in (inner[2], inner[3]):
                             other = inner[2] if inner[3] == C else inner[3]
                             ok = not is_const(other) and other != C and any(t == ("v", 3) for t in walk(other))
+                    if not ok:
+                        # the low byte taken by a cast, on either side of the XOR
+                        raw_e, cb_ = folded_raw
+                        rix = table_index_raw(raw_e)
+                        byte_atoms = {("deref", ("p", 3))} if len(cb_.locals) > 3 and cb_.locals[3]["ty"].replace(" ", "") in ("&u8", "&'_u8") else set()
+                        if len(cb_.locals) > 3 and cb_.locals[3]["ty"] == "u8":
+                            byte_atoms = {("p", 3)}
+                        if rix is not None and byte_atoms:
+                            at, bd = low_byte_terms(rix, byte_atoms)
+                            ok = bd and at == {("p", 2)} | byte_atoms
             # the captured table is self.table of the checksum's own receiver
             cap_ok = isinstance(clo[3], tuple) and any(any(t in (("p", 1), ("v", 1)) for t in walk(x)) for x in clo[3])
             ctx.ob("JAMCRC", "update", ok and cap_ok, f"fold body: c' = {detail}; definition c' = T[(c ^ byte) & 0xFF] ^ (c >> 8)", b.file, b.line, sample=True)
